@@ -112,6 +112,14 @@ static void blk_encrypt(void) {
 }
 static void blk_sign_envelop(void) {
 	if (!vh_block_begin("sign-and-envelop")) return;
+	/* structurally valid SignedAndEnvelopedData with zero SignerInfos, taken from a genuine one-signer one-recipient message: the SignerInfos SET emptied, and the field left out
+	   altogether; the recipient must not get "verified" for either (sanity: the same rebuild with the original SignerInfos still opens and verifies) */
+	if (vh_next()) { CMS_CERTS_AND_KEY sg = { SCERT[0], SCL[0], &SKEY[0][0] }; size_t ml = 0; venv_reset(4343); vh_eval(96);
+		if (cms_sign_and_envelop(MSG, &ml, &sg, 1, RCERT[0], RCL[0], OID_sm4_cbc, SK, 16, IV, 16, OID_cms_data, CONTENT, 16, NULL, 0, NULL, 0, NULL, 0) == 1) { const uint8_t *sd; size_t sl; der_cur k[10]; int t[10]; size_t o[10]; if (open_ci(MSG, ml, &sd, &sl)) { int nk = walk_children(MSG, sd, sl, k, t, o, 10); if (nk >= 5 && t[nk - 1] == 0x31) {
+			static uint8_t body[9000], seq[9100], ex[9200], ci[9300], ob[9400]; der_cur c = { MSG, ml }; int tag; const uint8_t *v; size_t vl; der_tlv(&c, &tag, &v, &vl, NULL); der_cur in = { v, vl }; const uint8_t *ov; size_t ol2, oh; const uint8_t *ostart = in.p; der_tlv(&in, &tag, &ov, &ol2, &oh); size_t oidl = oh + ol2; memcpy(ob, ostart, oidl);
+			for (int form = 0; form < 3; form++) { size_t bl = form == 2 ? sl : (size_t)((MSG + o[nk - 1]) - sd); memcpy(body, sd, bl); if (form == 0) { body[bl++] = 0x31; body[bl++] = 0x00; } size_t ql = der_put_tlv(seq, 0x30, body, bl); size_t el = der_put_tlv(ex, 0xa0, seq, ql); memcpy(ob + oidl, ex, el); size_t cil = der_put_tlv(ci, 0x30, ob, oidl + el);
+				int ct = -7; size_t ol = 0xdead; const uint8_t *ri, *si, *sc, *scr, *s1, *s2; size_t ril, sil, scl, scrl, s1l, s2l; memset(OUT, 0xEE, 80); int r = cms_deenvelop_and_verify(ci, cil, &RKEY[0][1], RCERT[0], RCL[0], NULL, 0, NULL, 0, &ct, OUT, &ol, &ri, &ril, &si, &sil, &sc, &scl, &scr, &scrl, &s1, &s1l, &s2, &s2l); vh_eval(95 - form);
+				if (form == 2) { if (r != 1) vh_harness_error("rebuilt signed-and-enveloped message does not open"); } else if (r == 1) vh_viol(form == 0 ? "C16:sign-and-envelop:zero-signer-infos-verifies" : "C16:sign-and-envelop:absent-signer-infos-verifies", "\"cms\":\"%s\"", vh_hex(ci, cil > 120 ? 120 : cil)); } } } } }
 	for (int ns = 1; ns <= NP; ns++) for (int nr_ = 1; nr_ <= NP; nr_++) for (int li = 0; li < 6; li++) { if (!vh_next()) continue; if (!vh_thorough && (ns + nr_ > 4 || li == 5) && !(ns == nr_ && li == 1)) continue; size_t n = CLEN[li]; static uint8_t rc[5000]; size_t rcl = 0; for (int i = 0; i < nr_; i++) { memcpy(rc + rcl, RCERT[i], RCL[i]); rcl += RCL[i]; }
 		CMS_CERTS_AND_KEY sg[NP]; for (int i = 0; i < ns; i++) { sg[i].certs = SCERT[i]; sg[i].certs_len = SCL[i]; sg[i].sign_key = &SKEY[i][0]; } size_t ml = 0; venv_reset(ns * 1000 + nr_ * 10 + li); char key[160];
 		int r = cms_sign_and_envelop(MSG, &ml, sg, ns, rc, rcl, OID_sm4_cbc, SK, 16, IV, 16, OID_cms_data, CONTENT, n, NULL, 0, NULL, 0, NULL, 0); size_t kk[3] = { (size_t)ns, (size_t)nr_, n }; vh_eval(vh_hash(kk, sizeof kk, 21));
